@@ -155,7 +155,7 @@ where
                 let amount = amount.min(MAX_HEADERS_AMOUNT_RESPONSE);
                 let mut responses = vec![];
 
-                for i in origin..origin + amount {
+                for i in origin..origin.saturating_add(amount) {
                     match store.get_by_height(i).await {
                         Ok(h) => {
                             if responses.is_empty() {
